@@ -15,13 +15,17 @@ front of any safe tail and that `parseOpnd` reads as one operand leaving the res
 
   * `mem_block`          : all five `memory_addr` shapes × optional override × every register choice ×
                            every displacement −32768..32767 / direct address 0..65535;
-  * `line2`, `line1`     : a two- or one-operand template line built from operand blocks is read as the
-                           operand pair / operand;
+  * `line2`, `line1`     : a two- or one-operand template line built from operand blocks — with any of the four
+                           separators the templates use (`,`  `, `  ` ,`  ` , `) — is read as the operand pair / operand;
+  * `templates_wellseparated` : every code template of the grammar REGENERATED from preprocessor.lalrpop is such a
+                           sequence: its literal pieces lex to interpreter keywords and punctuation only and
+                           every literal/argument boundary falls on a separator (kernel-decided over the data);
   * `mov_*`, `arith_*`, `logic_*`, `unary_*`, `shift_*`, `push_pop_*`, `xchg_*`, `lea_*`, `int_line`
                          : the instruction families over those blocks.
 -/
 import Emu8086.Props.ILexRT
 import Emu8086.Props.C12Text
+import Emu8086.Gen.PPGrammar
 
 set_option linter.unnecessarySimpa false
 
@@ -384,28 +388,39 @@ theorem blbl_block (l : String) (h1 : isIdent l.toList = true) (h2 : kws.contain
 
 def isKw (f : String) : Bool := isIdent f.toList && kws.contains f
 
-/-- **`<mnemonic> <A>,<B>`** : lexed to the mnemonic, the tokens of A, a comma, the tokens of B, and the
+/-- the separators the templates use between two operands: `","`, `", "`, `" ,"`, `" , "` -/
+def sepText : Bool → Bool → String
+  | false, false => "," | false, true => ", " | true, false => " ," | true, true => " , "
+def sepPieces : Bool → Bool → List Piece
+  | false, false => [.t .comma] | false, true => [.t .comma, .sp] | true, false => [.sp, .t .comma] | true, true => [.sp, .t .comma, .sp]
+
+/-- **`<mnemonic> <A><sep><B>`** : lexed to the mnemonic, the tokens of A, a comma, the tokens of B, and the
     two blocks are read as the operand pair (a, b) -/
-theorem line2 (f : String) (hf : isKw f = true) {A B : List Piece} {ta tb : String} {a b : Opnd}
+theorem line2 (f : String) (hf : isKw f = true) (s1 s2 : Bool) {A B : List Piece} {ta tb : String} {a b : Opnd}
     (hA : OpBlock A ta a) (hB : OpBlock B tb b) :
-    lexLine (f ++ " " ++ ta ++ "," ++ tb) = some (.kw f :: (toks A ++ .comma :: toks B))
+    lexLine (f ++ " " ++ ta ++ sepText s1 s2 ++ tb) = some (.kw f :: (toks A ++ .comma :: toks B))
     ∧ opnd2 (toks A ++ .comma :: toks B) = some (a, b) := by
   constructor
-  · have htxt : f ++ " " ++ ta ++ "," ++ tb = String.ofList (render (.t (.kw f) :: .sp :: (A ++ .t .comma :: B))) := by
+  · have htxt : f ++ " " ++ ta ++ sepText s1 s2 ++ tb = String.ofList (render (.t (.kw f) :: .sp :: (A ++ (sepPieces s1 s2 ++ B)))) := by
       apply String.toList_inj.mp
-      simp only [String.toList_ofList, render, render_append, tokChars, String.toList_append, hA.text, hB.text]
-      simp
+      cases s1 <;> cases s2 <;>
+        (simp only [String.toList_ofList, render, render_append, tokChars, String.toList_append, hA.text, hB.text, sepText, sepPieces]
+         simp)
     rw [htxt, lex_render]
-    · simp [toks, toks_append]
+    · cases s1 <;> cases s2 <;> simp [toks, toks_append, sepPieces]
     · rw [← piecesOkT_nil]
       simp only [isKw, Bool.and_eq_true] at hf
       have hc : ∀ (c : Char) (t : List Char), noIdAhead (c :: t) = !isIdChar c := fun _ _ => rfl
       have hB' := hB.ok [] (by decide)
-      have hA' := hA.ok (render (.t .comma :: B) ++ []) (by simp only [render, tokChars, List.cons_append, List.nil_append, safeTail, noIdAhead, noDigitAhead]; decide)
-      rw [show piecesOkT kws (.t (.kw f) :: .sp :: (A ++ .t .comma :: B)) []
-            = (tokOk kws (.kw f) (render (.sp :: (A ++ .t .comma :: B)) ++ []) && piecesOkT kws (A ++ .t .comma :: B) []) from rfl,
-          piecesOkT_append, hA',
-          show piecesOkT kws (.t .comma :: B) [] = (true && piecesOkT kws B []) from rfl, hB']
+      have hA' := hA.ok (render (sepPieces s1 s2 ++ B) ++ [])
+        (by cases s1 <;> cases s2 <;>
+              (simp only [sepPieces, render, render_append, tokChars, List.cons_append, List.nil_append, safeTail, noIdAhead, noDigitAhead]; decide))
+      have hS : piecesOkT kws (sepPieces s1 s2 ++ B) [] = true := by
+        rw [piecesOkT_append, hB']
+        cases s1 <;> cases s2 <;> rfl
+      rw [show piecesOkT kws (.t (.kw f) :: .sp :: (A ++ (sepPieces s1 s2 ++ B))) []
+            = (tokOk kws (.kw f) (render (.sp :: (A ++ (sepPieces s1 s2 ++ B))) ++ []) && piecesOkT kws (A ++ (sepPieces s1 s2 ++ B)) []) from rfl,
+          piecesOkT_append, hA', hS]
       simp only [tokOk, render, List.cons_append, hc, hf.1, hf.2]
       decide
   · rw [opnd2, hA.parse]
@@ -545,27 +560,27 @@ section
 variable {A B : List Piece} {ta tb : String} {a b : Opnd}
 
 /-- **MOV**: the line `mov <A>,<B>` is read as the `mov` of the operand pair -/
-theorem mov_line (hA : OpBlock A ta a) (hB : OpBlock B tb b) :
-    parseLine ("mov" ++ " " ++ ta ++ "," ++ tb) = movPair a b := by
-  obtain ⟨h1, h2⟩ := line2 "mov" (by decide +kernel) hA hB
+theorem mov_line (s1 s2 : Bool) (hA : OpBlock A ta a) (hB : OpBlock B tb b) :
+    parseLine ("mov" ++ " " ++ ta ++ sepText s1 s2 ++ tb) = movPair a b := by
+  obtain ⟨h1, h2⟩ := line2 "mov" (by decide +kernel) s1 s2 hA hB
   simp only [parseLine, h1, Option.bind_some, parseInstr, h2]
 
 /-- **ADD/ADC/SUB/SBB/CMP** -/
-theorem arith_line (f : String × ArithOp) (hf : f ∈ ariths) (hA : OpBlock A ta a) (hB : OpBlock B tb b) :
-    parseLine (f.1 ++ " " ++ ta ++ "," ++ tb) = arithOf f.2 a b := by
+theorem arith_line (f : String × ArithOp) (hf : f ∈ ariths) (s1 s2 : Bool) (hA : OpBlock A ta a) (hB : OpBlock B tb b) :
+    parseLine (f.1 ++ " " ++ ta ++ sepText s1 s2 ++ tb) = arithOf f.2 a b := by
   simp only [ariths, List.mem_cons, List.not_mem_nil, or_false] at hf
   have hk : isKw f.1 = true := by rcases hf with rfl | rfl | rfl | rfl | rfl <;> decide +kernel
-  obtain ⟨h1, h2⟩ := line2 f.1 hk hA hB
+  obtain ⟨h1, h2⟩ := line2 f.1 hk s1 s2 hA hB
   simp only [parseLine, h1, Option.bind_some]
   rcases hf with rfl | rfl | rfl | rfl | rfl <;>
     (rw [parseInstr_arith _ _ _ rfl (by decide +kernel), h2]; rfl)
 
 /-- **AND/OR/XOR/TEST** -/
-theorem logic_line (f : String × LogicOp) (hf : f ∈ logics) (hA : OpBlock A ta a) (hB : OpBlock B tb b) :
-    parseLine (f.1 ++ " " ++ ta ++ "," ++ tb) = logicOf f.2 a b := by
+theorem logic_line (f : String × LogicOp) (hf : f ∈ logics) (s1 s2 : Bool) (hA : OpBlock A ta a) (hB : OpBlock B tb b) :
+    parseLine (f.1 ++ " " ++ ta ++ sepText s1 s2 ++ tb) = logicOf f.2 a b := by
   simp only [logics, List.mem_cons, List.not_mem_nil, or_false] at hf
   have hk : isKw f.1 = true := by rcases hf with rfl | rfl | rfl | rfl <;> decide +kernel
-  obtain ⟨h1, h2⟩ := line2 f.1 hk hA hB
+  obtain ⟨h1, h2⟩ := line2 f.1 hk s1 s2 hA hB
   simp only [parseLine, h1, Option.bind_some]
   rcases hf with rfl | rfl | rfl | rfl <;>
     (rw [parseInstr_logic _ _ _ rfl rfl (by decide +kernel), h2]; rfl)
@@ -587,11 +602,11 @@ theorem not_line (hA : OpBlock A ta a) : parseLine ("not" ++ " " ++ ta) = notOf 
   rfl
 
 /-- **shifts and rotates** with a count operand block (CL or a constant) -/
-theorem shift_line (f : String × ShiftOp) (hf : f ∈ shifts) (hA : OpBlock A ta a) (hB : OpBlock B tb b) :
-    parseLine (f.1 ++ " " ++ ta ++ "," ++ tb) = shiftOf f.2 a b := by
+theorem shift_line (f : String × ShiftOp) (hf : f ∈ shifts) (s1 s2 : Bool) (hA : OpBlock A ta a) (hB : OpBlock B tb b) :
+    parseLine (f.1 ++ " " ++ ta ++ sepText s1 s2 ++ tb) = shiftOf f.2 a b := by
   simp only [shifts, List.mem_cons, List.not_mem_nil, or_false] at hf
   have hk : isKw f.1 = true := by rcases hf with rfl | rfl | rfl | rfl | rfl | rfl | rfl | rfl <;> decide +kernel
-  obtain ⟨h1, h2⟩ := line2 f.1 hk hA hB
+  obtain ⟨h1, h2⟩ := line2 f.1 hk s1 s2 hA hB
   simp only [parseLine, h1, Option.bind_some]
   rcases hf with rfl | rfl | rfl | rfl | rfl | rfl | rfl | rfl <;>
     (rw [parseInstr_shift _ _ _ rfl rfl rfl rfl (by decide +kernel), h2]; rfl)
@@ -607,17 +622,19 @@ theorem pop_line (hA : OpBlock A ta a) : parseLine ("pop" ++ " " ++ ta) = popOf 
   rfl
 
 /-- **XCHG / LEA** -/
-theorem xchg_line (hA : OpBlock A ta a) (hB : OpBlock B tb b) :
-    parseLine ("xchg" ++ " " ++ ta ++ "," ++ tb) = xchgOf a b := by
-  obtain ⟨h1, h2⟩ := line2 "xchg" (by decide +kernel) hA hB
+theorem xchg_line (s1 s2 : Bool) (hA : OpBlock A ta a) (hB : OpBlock B tb b) :
+    parseLine ("xchg" ++ " " ++ ta ++ sepText s1 s2 ++ tb) = xchgOf a b := by
+  obtain ⟨h1, h2⟩ := line2 "xchg" (by decide +kernel) s1 s2 hA hB
   simp only [parseLine, h1, Option.bind_some, parseInstr, h2]
   rfl
-theorem lea_line (hA : OpBlock A ta a) (hB : OpBlock B tb b) :
-    parseLine ("lea" ++ " " ++ ta ++ "," ++ tb) = leaOf a b := by
-  obtain ⟨h1, h2⟩ := line2 "lea" (by decide +kernel) hA hB
+theorem lea_line (s1 s2 : Bool) (hA : OpBlock A ta a) (hB : OpBlock B tb b) :
+    parseLine ("lea" ++ " " ++ ta ++ sepText s1 s2 ++ tb) = leaOf a b := by
+  obtain ⟨h1, h2⟩ := line2 "lea" (by decide +kernel) s1 s2 hA hB
   simp only [parseLine, h1, Option.bind_some, parseInstr, h2]
   rfl
 end
+
+theorem sepText_ff : sepText false false = "," := rfl
 
 /-! ### headline corollaries: the constant arrives numerically equal, operands keep their roles -/
 
@@ -636,7 +653,7 @@ include hs hv
 theorem mov_wmem_imm (x : Int) (h1 : -32768 ≤ x) (h2 : x ≤ 65535) :
     parseLine ("mov" ++ " " ++ ("word " ++ memText sg sh) ++ "," ++ toString x)
       = some (.mov16 (.mem (memAddr sg sh)) (.imm (BitVec.ofInt 16 x))) := by
-  rw [mov_line (wmem_block sg sh hs hv) (imm_block x)]
+  rw [← sepText_ff, mov_line false false (wmem_block sg sh hs hv) (imm_block x)]
   have := sImm16_imm x h1 h2
   cases x <;> simp only [immOpnd] at this ⊢ <;> simp only [movPair, binPair, dst8?, dst16?, this, if_true, Option.map_some]
 
@@ -644,48 +661,48 @@ theorem mov_wmem_imm (x : Int) (h1 : -32768 ≤ x) (h2 : x ≤ 65535) :
 theorem mov_bmem_imm (x : Int) (h1 : -128 ≤ x) (h2 : x ≤ 65535) :
     parseLine ("mov" ++ " " ++ ("byte " ++ memText sg sh) ++ "," ++ toString x)
       = some (.mov8 (.mem (memAddr sg sh)) (.imm (BitVec.ofInt 8 x))) := by
-  rw [mov_line (bmem_block sg sh hs hv) (imm_block x)]
+  rw [← sepText_ff, mov_line false false (bmem_block sg sh hs hv) (imm_block x)]
   have := sImm8_imm x h1 h2
   cases x <;> simp only [immOpnd] at this ⊢ <;> simp only [movPair, binPair, dst8?, dst16?, this, if_true, Option.map_some]
 
 /-- `mov <reg>,word <mem>` and `mov word <mem>,<reg>`: load and store are not confused -/
 theorem mov_wreg_wmem (r : String × WordReg) (hr : r ∈ wregs) :
     parseLine ("mov" ++ " " ++ r.1 ++ "," ++ ("word " ++ memText sg sh)) = some (.mov16 (.reg r.2) (.mem (memAddr sg sh))) := by
-  rw [mov_line (wreg_block r hr) (wmem_block sg sh hs hv)]; rfl
+  rw [← sepText_ff, mov_line false false (wreg_block r hr) (wmem_block sg sh hs hv)]; rfl
 theorem mov_wmem_wreg (r : String × WordReg) (hr : r ∈ wregs) :
     parseLine ("mov" ++ " " ++ ("word " ++ memText sg sh) ++ "," ++ r.1) = some (.mov16 (.mem (memAddr sg sh)) (.reg r.2)) := by
-  rw [mov_line (wmem_block sg sh hs hv) (wreg_block r hr)]; rfl
+  rw [← sepText_ff, mov_line false false (wmem_block sg sh hs hv) (wreg_block r hr)]; rfl
 theorem mov_breg_bmem (r : String × ByteReg) (hr : r ∈ bregs) :
     parseLine ("mov" ++ " " ++ r.1 ++ "," ++ ("byte " ++ memText sg sh)) = some (.mov8 (.reg r.2) (.mem (memAddr sg sh))) := by
-  rw [mov_line (breg_block r hr) (bmem_block sg sh hs hv)]; rfl
+  rw [← sepText_ff, mov_line false false (breg_block r hr) (bmem_block sg sh hs hv)]; rfl
 theorem mov_bmem_breg (r : String × ByteReg) (hr : r ∈ bregs) :
     parseLine ("mov" ++ " " ++ ("byte " ++ memText sg sh) ++ "," ++ r.1) = some (.mov8 (.mem (memAddr sg sh)) (.reg r.2)) := by
-  rw [mov_line (bmem_block sg sh hs hv) (breg_block r hr)]; rfl
+  rw [← sepText_ff, mov_line false false (bmem_block sg sh hs hv) (breg_block r hr)]; rfl
 /-- segment-register moves to and from memory -/
 theorem mov_sreg_wmem (r : String × WordReg) (hr : r ∈ segs) :
     parseLine ("mov" ++ " " ++ r.1 ++ "," ++ ("word " ++ memText sg sh)) = some (.mov16 (.reg r.2) (.mem (memAddr sg sh))) := by
-  rw [mov_line (sreg_block r hr) (wmem_block sg sh hs hv)]; rfl
+  rw [← sepText_ff, mov_line false false (sreg_block r hr) (wmem_block sg sh hs hv)]; rfl
 theorem mov_wmem_sreg (r : String × WordReg) (hr : r ∈ segs) :
     parseLine ("mov" ++ " " ++ ("word " ++ memText sg sh) ++ "," ++ r.1) = some (.mov16 (.mem (memAddr sg sh)) (.reg r.2)) := by
-  rw [mov_line (wmem_block sg sh hs hv) (sreg_block r hr)]; rfl
+  rw [← sepText_ff, mov_line false false (wmem_block sg sh hs hv) (sreg_block r hr)]; rfl
 
 /-- ADD/ADC/SUB/SBB/CMP `word <mem>,<constant>`, `<reg>,word <mem>`, `word <mem>,<reg>` -/
 theorem arith_wmem_imm (f : String × ArithOp) (hf : f ∈ ariths) (x : Int) (h1 : -32768 ≤ x) (h2 : x ≤ 65535) :
     parseLine (f.1 ++ " " ++ ("word " ++ memText sg sh) ++ "," ++ toString x)
       = some (.arith16 f.2 (.mem (memAddr sg sh)) (.imm (BitVec.ofInt 16 x))) := by
-  rw [arith_line f hf (wmem_block sg sh hs hv) (imm_block x)]
+  rw [← sepText_ff, arith_line f hf false false (wmem_block sg sh hs hv) (imm_block x)]
   have := sImm16_imm x h1 h2
   cases x <;> simp only [immOpnd] at this ⊢ <;> simp only [arithOf, binPair, dst8?, dst16?, this, if_true, Option.map_some]
 theorem arith_wreg_wmem (f : String × ArithOp) (hf : f ∈ ariths) (r : String × WordReg) (hr : r ∈ wregs) :
     parseLine (f.1 ++ " " ++ r.1 ++ "," ++ ("word " ++ memText sg sh)) = some (.arith16 f.2 (.reg r.2) (.mem (memAddr sg sh))) := by
-  rw [arith_line f hf (wreg_block r hr) (wmem_block sg sh hs hv)]; rfl
+  rw [← sepText_ff, arith_line f hf false false (wreg_block r hr) (wmem_block sg sh hs hv)]; rfl
 theorem arith_wmem_wreg (f : String × ArithOp) (hf : f ∈ ariths) (r : String × WordReg) (hr : r ∈ wregs) :
     parseLine (f.1 ++ " " ++ ("word " ++ memText sg sh) ++ "," ++ r.1) = some (.arith16 f.2 (.mem (memAddr sg sh)) (.reg r.2)) := by
-  rw [arith_line f hf (wmem_block sg sh hs hv) (wreg_block r hr)]; rfl
+  rw [← sepText_ff, arith_line f hf false false (wmem_block sg sh hs hv) (wreg_block r hr)]; rfl
 theorem arith_bmem_imm (f : String × ArithOp) (hf : f ∈ ariths) (x : Int) (h1 : -128 ≤ x) (h2 : x ≤ 65535) :
     parseLine (f.1 ++ " " ++ ("byte " ++ memText sg sh) ++ "," ++ toString x)
       = some (.arith8 f.2 (.mem (memAddr sg sh)) (.imm (BitVec.ofInt 8 x))) := by
-  rw [arith_line f hf (bmem_block sg sh hs hv) (imm_block x)]
+  rw [← sepText_ff, arith_line f hf false false (bmem_block sg sh hs hv) (imm_block x)]
   have := sImm8_imm x h1 h2
   cases x <;> simp only [immOpnd] at this ⊢ <;> simp only [arithOf, binPair, dst8?, dst16?, this, if_true, Option.map_some]
 
@@ -693,7 +710,7 @@ theorem arith_bmem_imm (f : String × ArithOp) (hf : f ∈ ariths) (x : Int) (h1
 theorem logic_wmem_imm (f : String × LogicOp) (hf : f ∈ logics) (n : Nat) (hn : n ≤ 65535) :
     parseLine (f.1 ++ " " ++ ("word " ++ memText sg sh) ++ "," ++ toString (n : Int))
       = some (.logic16 f.2 (.mem (memAddr sg sh)) (.imm (BitVec.ofNat 16 n))) := by
-  rw [logic_line f hf (wmem_block sg sh hs hv) (imm_block n)]
+  rw [← sepText_ff, logic_line f hf false false (wmem_block sg sh hs hv) (imm_block n)]
   simp only [logicOf, binPair, dst8?, dst16?, immOpnd, uImm16?, uWord?, digitsVal_render, hn, if_true, Bool.false_eq_true, if_false,
     Option.map_some]
 
@@ -701,11 +718,11 @@ theorem logic_wmem_imm (f : String × LogicOp) (hf : f ∈ logics) (n : Nat) (hn
 theorem shift_wmem_count (f : String × ShiftOp) (hf : f ∈ shifts) (n : Nat) (hn : n ≤ 255) :
     parseLine (f.1 ++ " " ++ ("word " ++ memText sg sh) ++ "," ++ toString (n : Int))
       = some (.shift16 f.2 (.mem (memAddr sg sh)) (some (BitVec.ofNat 8 n))) := by
-  rw [shift_line f hf (wmem_block sg sh hs hv) (imm_block n)]
+  rw [← sepText_ff, shift_line f hf false false (wmem_block sg sh hs hv) (imm_block n)]
   simp only [shiftOf, dst8?, dst16?, immOpnd, uByte?, digitsVal_render, hn, if_true, Option.map_some]
 theorem shift_bmem_cl (f : String × ShiftOp) (hf : f ∈ shifts) :
     parseLine (f.1 ++ " " ++ ("byte " ++ memText sg sh) ++ "," ++ "cl") = some (.shift8 f.2 (.mem (memAddr sg sh)) none) := by
-  rw [shift_line f hf (bmem_block sg sh hs hv) (breg_block ("cl", .CL) (by decide))]; rfl
+  rw [← sepText_ff, shift_line f hf false false (bmem_block sg sh hs hv) (breg_block ("cl", .CL) (by decide))]; rfl
 
 /-- unary instructions, NOT, PUSH, POP, LEA, XCHG on a memory operand -/
 theorem unary_wmem (f : String × UnOp) (hf : f ∈ unaries) :
@@ -722,28 +739,28 @@ theorem pop_wmem : parseLine ("pop" ++ " " ++ ("word " ++ memText sg sh)) = some
   rw [pop_line (wmem_block sg sh hs hv)]; rfl
 theorem lea_wmem (r : String × WordReg) (hr : r ∈ wregs) :
     parseLine ("lea" ++ " " ++ r.1 ++ "," ++ ("word " ++ memText sg sh)) = some (.lea r.2 (.mem (memAddr sg sh))) := by
-  rw [lea_line (wreg_block r hr) (wmem_block sg sh hs hv)]; rfl
+  rw [← sepText_ff, lea_line false false (wreg_block r hr) (wmem_block sg sh hs hv)]; rfl
 theorem xchg_wmem (r : String × WordReg) (hr : r ∈ wregs) :
     parseLine ("xchg" ++ " " ++ ("word " ++ memText sg sh) ++ "," ++ r.1) = some (.xchg16 (.mem (memAddr sg sh)) r.2) := by
-  rw [xchg_line (wmem_block sg sh hs hv) (wreg_block r hr)]; rfl
+  rw [← sepText_ff, xchg_line false false (wmem_block sg sh hs hv) (wreg_block r hr)]; rfl
 end
 
 /-- register ← constant, every register and every constant of the rule's range -/
 theorem mov_wreg_imm (r : String × WordReg) (hr : r ∈ wregs) (x : Int) (h1 : -32768 ≤ x) (h2 : x ≤ 65535) :
     parseLine ("mov" ++ " " ++ r.1 ++ "," ++ toString x) = some (.mov16 (.reg r.2) (.imm (BitVec.ofInt 16 x))) := by
-  rw [mov_line (wreg_block r hr) (imm_block x)]
+  rw [← sepText_ff, mov_line false false (wreg_block r hr) (imm_block x)]
   have := sImm16_imm x h1 h2
   cases x <;> simp only [immOpnd] at this ⊢ <;> simp only [movPair, binPair, dst8?, dst16?, this, if_true, Option.map_some]
 theorem arith_wreg_imm (f : String × ArithOp) (hf : f ∈ ariths) (r : String × WordReg) (hr : r ∈ wregs) (x : Int)
     (h1 : -32768 ≤ x) (h2 : x ≤ 65535) :
     parseLine (f.1 ++ " " ++ r.1 ++ "," ++ toString x) = some (.arith16 f.2 (.reg r.2) (.imm (BitVec.ofInt 16 x))) := by
-  rw [arith_line f hf (wreg_block r hr) (imm_block x)]
+  rw [← sepText_ff, arith_line f hf false false (wreg_block r hr) (imm_block x)]
   have := sImm16_imm x h1 h2
   cases x <;> simp only [immOpnd] at this ⊢ <;> simp only [arithOf, binPair, dst8?, dst16?, this, if_true, Option.map_some]
 /-- data labels as operands: any identifier that is not an interpreter keyword -/
 theorem mov_wlbl_wreg (l : String) (h1 : isIdent l.toList = true) (h2 : kws.contains l = false) (r : String × WordReg) (hr : r ∈ wregs) :
     parseLine ("mov" ++ " " ++ ("word " ++ l) ++ "," ++ r.1) = some (.mov16 (.lbl l) (.reg r.2)) := by
-  rw [mov_line (wlbl_block l h1 h2) (wreg_block r hr)]; rfl
+  rw [← sepText_ff, mov_line false false (wlbl_block l h1 h2) (wreg_block r hr)]; rfl
 
 /-! ### non-vacuity: concrete instances, evaluated by the kernel on the real strings -/
 example : (Shape.bi ("bp", .BP) ("di", .DI) (-32768)).valid := by simp [Shape.valid, bases, idxs]
@@ -761,5 +778,41 @@ example : parseLine "sbb byte [si,-1],-128" = some (.arith8 .sbb (.mem { index :
   have e : ("sbb", ArithOp.sbb).1 ++ " " ++ ("byte " ++ memText none (.dispI ("si", .SI) (-1))) ++ "," ++ toString (-128 : Int)
       = "sbb byte [si,-1],-128" := by decide +kernel
   rw [e] at h; rw [h]; decide +kernel
+
+/-! ### the templates of the REGENERATED grammar are such piece sequences -/
+
+/-- every `format!` template that emits a code line, taken from the grammar data regenerated from
+    preprocessor.lalrpop on every run -/
+def codeTemplates : List (List Grammar.Piece) :=
+  Gen.PP.grammar.flatMap fun (_, d) =>
+    match d with
+    | .alts l => l.filterMap fun a => match a.act with | .code fmt _ => some fmt | _ => none
+    | _ => []
+
+/-- a literal piece of a template consists of interpreter keywords and punctuation only -/
+def litOk (s : String) : Bool :=
+  match lexLine s with
+  | some ts => ts.all fun t => match t with | .kw _ | .comma | .colon | .arrow => true | _ => false
+  | none => false
+def endsSep (s : String) : Bool := match s.toList.getLast? with | some c => c == ' ' || c == ',' || c == '[' || c == ':' | none => false
+def startsSep (s : String) : Bool := match s.toList.head? with | some c => c == ' ' || c == ',' || c == ']' || c == ':' | none => false
+/-- where a literal meets an argument the literal supplies the separator; two arguments never touch -/
+def boundaryOk : List Grammar.Piece → Bool
+  | .lit s :: .arg i :: rest => endsSep s && boundaryOk (.arg i :: rest)
+  | .arg _ :: .lit s :: rest => startsSep s && boundaryOk (.lit s :: rest)
+  | .arg _ :: .arg _ :: _ => false
+  | _ :: rest => boundaryOk rest
+  | [] => true
+
+/-- **Every code template of the current grammar is a well-separated piece sequence**: its literal
+    pieces lex to interpreter keywords and punctuation, and literal/argument boundaries fall on a
+    separator — the hypotheses under which `lex_render` and the `*_line` theorems apply to what the
+    assembler emits (kernel-decided over the regenerated grammar data). -/
+theorem templates_wellseparated :
+    codeTemplates.all (fun fmt => (fmt.all fun p => match p with | .lit s => litOk s | .arg _ => true) && boundaryOk fmt) = true := by
+  decide +kernel
+
+/-- non-vacuity: the grammar has code templates, with and without literal separators -/
+example : 40 ≤ codeTemplates.length := by decide +kernel
 
 end Emu8086.Props.C11Lines
